@@ -411,11 +411,13 @@ def run_auth(case):
                 chan = client_ctx().wrap_socket(sock, server_hostname='peer.example')
                 w = Wire(chan)
                 r = cmd(b'EHLO c.example')
-        if position == 'after-success':
+        if position in ('after-success', 'after-success-reehlo'):
             r = cmd(b'AUTH PLAIN ' + b64(b'\x00first\x00pw').encode())
             if r is None or r[0] not in ('235',):
                 # cannot reach the position on this session (e.g. plain text refused without TLS): not judged
                 return [], False
+            if position == 'after-success-reehlo':
+                cmd(b'EHLO again.example')
         if position == 'in-transaction':
             cmd(b'MAIL FROM:<s@x.example>')
         ncb = len([t for t in h.trace if t[0] == 'AUTH'])
@@ -431,6 +433,19 @@ def run_auth(case):
             final = cmd(b'AUTH ' + mech.encode() + b' !!!not*base64!!!')
         elif shape == 'equals':
             final = cmd(b'AUTH ' + mech.encode() + b' =')
+        elif shape == 'badutf8':
+            bad = b64(b'\x00al\xff\xfeice\x00secret') if mech == 'PLAIN' else b64(b'al\xff\xfeice')
+            final = cmd(b'AUTH ' + mech.encode() + b' ' + bad.encode())
+            if mech == 'LOGIN' and final is not None and final[0] == '334':
+                final = cmd(b64(b'secret').encode())       # the user name is only decoded once the exchange is complete
+        elif shape == 'badutf8-challenge':
+            r = cmd(b'AUTH ' + mech.encode())
+            if r is not None and r[0] == '334':
+                bad = b64(b'\x00al\xff\xfeice\x00secret') if mech == 'PLAIN' else b64(b'al\xff\xfeice')
+                r = cmd(bad.encode())
+                if r is not None and r[0] == '334' and mech == 'LOGIN':
+                    r = cmd(b64(b'p\xff').encode())
+            final = r
         elif mech == 'PLAIN':
             if shape == 'initial':
                 final = cmd(b'AUTH PLAIN ' + b64(plain_msg).encode())
@@ -467,7 +482,7 @@ def run_auth(case):
         code = final[0]
         happy_shape = shape in ('initial', 'challenge') and mech != 'UNKNOWN'
         # 1. position rules
-        if position in ('before-ehlo', 'after-success', 'in-transaction'):
+        if position in ('before-ehlo', 'after-success', 'after-success-reehlo', 'in-transaction'):
             if not code.startswith('5') or auth_cbs:
                 out.append(('C08:auth-allowed-in-wrong-position:%s' % position, '%s: reply %s callbacks %d' % (desc, code, len(auth_cbs))))
         # 2. plain-text mechanisms need TLS
@@ -600,14 +615,16 @@ CREDS = [('user', 'pass', ''), ('user', 'pass', 'admin'), ('üser@exämple.com',
 def auth_table():
     for tls in ('none', 'starttls', 'immediate'):
         for mech in ('PLAIN', 'LOGIN', 'CRAM-MD5', 'UNKNOWN'):
-            for shape in ('initial', 'challenge', 'cancel', 'badb64', 'equals', 'noarg'):
+            for shape in ('initial', 'challenge', 'cancel', 'badb64', 'equals', 'noarg', 'badutf8', 'badutf8-challenge'):
                 if mech == 'CRAM-MD5' and shape in ('initial',):
                     continue
                 if mech == 'UNKNOWN' and shape not in ('initial', 'challenge'):
                     continue
                 if mech in ('LOGIN', 'CRAM-MD5') and shape == 'equals':
                     continue
-                for position in ('normal', 'before-ehlo', 'after-success', 'in-transaction'):
+                if mech == 'CRAM-MD5' and shape.startswith('badutf8'):
+                    continue
+                for position in ('normal', 'before-ehlo', 'after-success', 'after-success-reehlo', 'in-transaction'):
                     if position != 'normal' and shape not in ('initial', 'challenge'):
                         continue
                     for k, creds in enumerate(CREDS if (position == 'normal' and shape in ('initial', 'challenge')) else CREDS[:1]):
@@ -654,8 +671,8 @@ def replay(case):
     try:
         if fam == 'auth':
             if case['tls'] not in ('none', 'starttls', 'immediate') or case['mech'] not in ('PLAIN', 'LOGIN', 'CRAM-MD5', 'UNKNOWN') \
-                    or case['shape'] not in ('initial', 'challenge', 'cancel', 'badb64', 'equals', 'noarg') \
-                    or case['position'] not in ('normal', 'before-ehlo', 'after-success', 'in-transaction'):
+                    or case['shape'] not in ('initial', 'challenge', 'cancel', 'badb64', 'equals', 'noarg', 'badutf8', 'badutf8-challenge') \
+                    or case['position'] not in ('normal', 'before-ehlo', 'after-success', 'after-success-reehlo', 'in-transaction'):
                 return []
             case = dict(case, creds=[str(x) for x in case['creds']][:3])
             if len(case['creds']) != 3:
